@@ -10,7 +10,7 @@ VARIABLE i
 TInit == i = 1 /\ chain = [start |-> "OI", items |-> <<>>]
 InputOf(o) == IF IsIt(o.chain.start) THEN Iter(o.inp.v) ELSE o.inp
 TNext == /\ i <= Len(Obs)
-         /\ LET o == Obs[i]  r == Eval(o.chain, InputOf(o)) IN r.v = o.v /\ r.calls = o.calls
+         /\ LET o == Obs[i]  r == IF o.try THEN EvalTry(o.chain, InputOf(o)) ELSE Eval(o.chain, InputOf(o)) IN r.v = o.v /\ r.calls = o.calls
          /\ i' = i + 1
          /\ UNCHANGED chain
 TSpec == TInit /\ [][TNext]_<<i, chain>>
